@@ -23,7 +23,7 @@ independent oracle that evaluates the property on the implementation's own outpu
     of it (theorem schedule_followed_to_cache_resolution), fluxes / time step = the thermodynamics evaluated at
     (x, schedule(z, t)) without the table; runs compared across the ways of giving the schedule and cached vs uncached.
 No file of /repo is touched: all instrumentation is instance-attribute wrapping at run time."""
-import bisect, contextlib, io, math, os, warnings
+import bisect, contextlib, io, math, os, random, warnings
 import numpy as np
 import vlib, kwnfull
 from vlib import Result, enc_list, f2b, Toks, close
@@ -1828,6 +1828,11 @@ def corr(ctx, oracle_only=False, scale=1.0):
             c['container'] = 'f64'        # one pair of float64 ndarrays shared by the constructor model and the setter model
         vlib.guarded(res, 'paired-run-' + k, {x: c[x] for x in c if x != 'via'}, check_pair, ctx, res, c)
     res.sample({'run': {k: cases[0][k] for k in ('kind', 'spec', 'solver', 'mode', 'maxTC', 'n')}})
+    # ---- staged runs (own generator: the stream of the cases above is what it was)
+    srng = random.Random('%s/staged' % ctx.seed)
+    for j in range(int(ctx.n(4, 40) * scale)):
+        c = gen_staged_case(srng, {0: ('iso', 'iso'), 1: ('two', 'iso')}.get(j))
+        vlib.guarded(res, 'staged-run', c, check_staged, ctx, res, c)
     # ---- diffusion runs under a schedule
     corr_drun(ctx, res, oracle_only, scale)
     # the COMPOSED step (KWNFull.eulerStep, theorems eulerStep_fresh / runSteps_fresh): non-isothermal real runs replayed step by step
@@ -1836,6 +1841,60 @@ def corr(ctx, oracle_only=False, scale=1.0):
     kwnfull.refine_scenarios(ctx, res, PROP, _composed_plan(ctx), oracles=('lookup',), driver=not oracle_only)
     vlib.finish_guard(res)      # harness errors are re-raised only when the run found no violation
     return res
+
+
+# ---- staged runs: the schedule is re-specified between two solve calls of one model (no reset) - every row of the second
+# solve carries the schedule IN FORCE at its time, also when both specifications are constants (round 7)
+def gen_staged_case(rng, force=None):
+    T1 = rng.uniform(690, 740)
+    k1 = rng.choice(['iso', 'iso', 'two'])
+    sim1, sim2 = rng.choice([0.3, 0.6]), rng.choice([0.3, 0.6])
+    spec1 = ('iso', T1) if k1 == 'iso' else ('two', [0.0, sim1 / 3600], [T1, T1 + rng.uniform(-6, 6)])
+    k2 = rng.choice(['iso', 'iso', 'iso', 'two', 'fn'])
+    if force:
+        k1, k2 = force
+        spec1 = ('iso', T1) if k1 == 'iso' else ('two', [0.0, sim1 / 3600], [T1, T1 + 4.0])
+    T2 = T1 + rng.choice([-1, 1]) * rng.uniform(3, 15)
+    if k2 == 'iso':
+        spec2 = ('iso', T2)
+    elif k2 == 'two':
+        spec2 = ('two', [sim1 / 3600, (sim1 + sim2) / 3600], [T2, T2 + rng.uniform(-6, 6)])
+    else:
+        spec2 = ('fn', T2, rng.uniform(-8, 8), sim1)
+    return {'family': 'staged', 'spec': spec1, 'spec2': spec2, 'via': rng.choice(['ctor', 'setter']), 'solver': rng.choice(['euler', 'euler', 'rk4']),
+            'sim': sim1, 'sim2': sim2, 'n': rng.randint(8, 16), 'maxTC': 1.0, 'method': 'curvature', 'pbm': 'small', 'container': 'list'}
+
+
+def check_staged(ctx, res, case):
+    from kawin.solver import SolverType
+    desc = {k: case[k] for k in case}
+    with quiet():
+        m = make_model(case)
+        m.therm.clearCache()
+        stype = SolverType.RK4 if case['solver'] == 'rk4' else SolverType.EXPLICITEULER
+        nper = case['n']
+        m.solve(case['sim'], solverType=stype, minDtFrac=1.0 / nper, maxDtFrac=1.0 / nper)
+        n1 = int(m.pData.n)
+        m.setTemperature(*py_args(spec_args(case['spec2'])))
+        m.solve(case['sim2'], solverType=stype, minDtFrac=1.0 / nper, maxDtFrac=1.0 / nper)
+    T = np.asarray(m.pData.temperature, dtype=float)[:m.pData.n + 1]; tm = np.asarray(m.pData.time, dtype=float)[:m.pData.n + 1]
+    a1, a2 = spec_args(case['spec']), spec_args(case['spec2'])
+    res.case(('staged', case['spec'][0], case['spec2'][0], case['solver'], case['via']), len(tm) - 1 - n1 >= 3)
+    res.count('staged-run:%s->%s' % (case['spec'][0], case['spec2'][0])); res.count('staged-run rows of the second solve', len(tm) - 1 - n1)
+    for i in range(len(tm)):
+        want = ref_sched(a1 if i <= n1 else a2, float(tm[i]))
+        if want == 'tie' or want is None:
+            continue
+        if not close(T[i], want, 1e-9, 1000.0):
+            res.violate('recorded-temperature-after-respecification' if i > n1 else 'recorded-temperature-step',
+                        'pData.temperature[%d] is not the schedule in force at pData.time[%d] (%s)' % (
+                            i, i, 'second solve, after setTemperature between the solve calls' if i > n1 else 'first solve'),
+                        dict(desc, index=i, time=float(tm[i]), rows_of_first_solve=n1), float(T[i]), want)
+            break
+    iso2 = case['spec2'][0] == 'iso'
+    if bool(m.temperatureParameters._isIsothermal) != iso2:
+        res.violate('incubation-treatment-after-respecification', 'after setTemperature(%s) between two solve calls _isIsothermal = %s' % (
+            case['spec2'][0], m.temperatureParameters._isIsothermal), desc, bool(m.temperatureParameters._isIsothermal), iso2)
 
 
 def search(ctx, broken):
@@ -1856,7 +1915,7 @@ def replay(ctx, entry):
     for v in res.violations:
         print('  ', v['key'], v['what'], v['observed'], v['required'])
     vlib.finish_guard(res)
-    return (not res.violations) if fam in ('sched-prec', 'sched-diff', 'sched-world', 'run', 'drun') else None
+    return (not res.violations) if fam in ('sched-prec', 'sched-diff', 'sched-world', 'run', 'drun', 'staged') else None
 
 
 def _replay_case(ctx, res, c, fam):
@@ -1880,6 +1939,10 @@ def _replay_case(ctx, res, c, fam):
             check_drun(ctx, res, case, True, vias[0], True)
         else:
             check_drun_group(ctx, res, case, oracle_only=True)
+    elif fam == 'staged':
+        case = {k: v for k, v in c.items() if k not in ('index', 'time', 'rows_of_first_solve')}
+        case['spec'] = tuple(case['spec']); case['spec2'] = tuple(case['spec2'])
+        check_staged(ctx, res, case)
     elif fam == 'run':
         case = {k: v for k, v in c.items() if k not in ('call', 'index', 'time', 'attribute', 'step')}
         case['spec'] = tuple(case['spec'])
